@@ -59,7 +59,6 @@ func newVerifier(repo, specDir string) (*verifier, error) {
 			"encoding/xml.Decoder":           true,
 			"encoding/json.Decoder":          true,
 			"reflect.Value":                  true,
-			"reflect.StructField":            true,
 			"golang.org/x/text/language.Tag": true,
 		},
 	}
@@ -67,6 +66,10 @@ func newVerifier(repo, specDir string) (*verifier, error) {
 	for ts := range v.opaqueStructs {
 		i := strings.LastIndex(ts, "/")
 		v.opaque("O_" + sanitize(strings.Replace(ts[i+1:], ".", "_", 1)))
+	}
+	// opaque interface sorts that specification modules mention (declared only in the queries that use them)
+	for _, n := range []string{"I_reflect_Type", "I_any", "I_json_Token"} {
+		v.opaque(n)
 	}
 	sort.Strings(v.opaqueDecls)
 	v.typedSorts = map[string]bool{"S_store_InMemory": true}
